@@ -122,6 +122,9 @@ def build_model(spec, dtype=torch.float32):
                 p.copy_(0.3 * torch.randn(p.shape, generator=gen))
     model = model.to(dtype)
     for i, L in enumerate(spec['layers']):
+        if L.get('tie_to') is not None:            # weight tying: this layer uses the very Parameter of an earlier layer of the same shape
+            mods[i].weight = mods[L['tie_to']].weight
+    for i, L in enumerate(spec['layers']):
         fr = L.get('frozen')
         if fr == 'all':
             for p in mods[i].parameters():
